@@ -1,6 +1,7 @@
 import Klepto.Driver.Wrapper
 import Klepto.Driver.Keys
 import Klepto.Driver.Round
+import Klepto.Driver.Backend
 /-! the driver loop: one JSON object per input line, one JSON object per output line.
 A line with `"op":"cfg"` starts a new trace of the suite named in its `"suite"` field. -/
 namespace Klepto.Driver
@@ -12,6 +13,7 @@ inductive DState
   | cache (c : Cache Nat Nat)
   | keys (c : KeysCfg)
   | round
+  | backend (d : BackendD)
 
 def badOp (msg : String) : Json := Json.mkObj [("bad-op", Json.str msg)]
 
@@ -31,6 +33,10 @@ def startTrace (j : Json) : DState × Json :=
     | .ok c => (.keys c, Json.str "ok")
     | .error e => (.idle, badOp e)
   | .ok "round" => (.round, Json.str "ok")
+  | .ok "backend" =>
+    match backendOf j with
+    | .ok d => (.backend d, Json.str "ok")
+    | .error e => (.idle, badOp e)
   | .ok s => (.idle, badOp s!"unknown suite {s}")
 
 def stepLine (st : DState) (line : String) : DState × Json :=
@@ -52,6 +58,10 @@ def stepLine (st : DState) (line : String) : DState × Json :=
       | .round =>
         match roundStep j with
         | .ok o => (st, o)
+        | .error e => (st, badOp e)
+      | .backend d =>
+        match backendStep d j with
+        | .ok (d', o) => (.backend d', o)
         | .error e => (st, badOp e)
       | .keys c =>
         match keysStep c j with
